@@ -57,8 +57,10 @@ def census(flow, label):
                 if r.conn is c:
                     expected += 1
                     why.append('%s#%d' % (r.kind, r.order))
-    eng.check(len(others) == expected, 'timer-census', 'after step %d (%s) %s: %d retry/handshake timers pending, %d expected (%s)' % (
-        st, w.steps[st][0], label, len(others), expected, why), sig='timer-census:%s' % ('more' if len(others) > expected else 'fewer'))
+    # more timers than packets awaiting acknowledgement is the violation (a stale or second timer); fewer would be
+    # a retransmission problem (C08) or simply a different timer design, and is not demanded here
+    eng.check(len(others) <= expected, 'timer-census', 'after step %d (%s) %s: %d retry/handshake timers pending, at most %d expected (%s)' % (
+        st, w.steps[st][0], label, len(others), expected, why), sig='timer-census:more')
     eng.count('timer-census')
     if expected:
         eng.count('in-flight-timer')
